@@ -311,4 +311,162 @@ theorem brier_checked (fs os : List Fl) (w : Option (List Fl)) :
   simp only [Bool.false_and, Bool.false_eq_true, if_false] at hu
   cases h1 : fcst_range_rejected (nanMax fs) (nanMin fs) <;> cases h2 : binaryRejected os <;> simp [hu] <;> rfl
 
+/-! ## 6. The guards at array level: exactly the inputs of the definition's domain are accepted. -/
+
+private theorem max_notNan (a b : Fl) (ha : a.notNan = true) (hb : b.notNan = true) : (Fl.max a b).notNan = true := by
+  cases a <;> cases b <;> simp_all [Fl.max, notNan, isNan] <;> split_ifs <;> rfl
+
+private theorem min_notNan (a b : Fl) (ha : a.notNan = true) (hb : b.notNan = true) : (Fl.min a b).notNan = true := by
+  cases a <;> cases b <;> simp_all [Fl.min, notNan, isNan] <;> split_ifs <;> rfl
+
+private theorem gt_max (a b : Fl) (c : Rat) (ha : a.notNan = true) (hb : b.notNan = true) :
+    Fl.gt (Fl.max a b) (fin c) = (Fl.gt a (fin c) || Fl.gt b (fin c)) := by
+  cases a <;> cases b <;> simp_all [Fl.max, Fl.gt, Fl.lt, Fl.le, notNan, isNan]
+  rename_i p q
+  by_cases h : p ≤ q
+  · simp [h]; intro h1; linarith
+  · simp [h]; intro h1; linarith
+
+private theorem lt_min (a b : Fl) (c : Rat) (ha : a.notNan = true) (hb : b.notNan = true) :
+    Fl.lt (Fl.min a b) (fin c) = (Fl.lt a (fin c) || Fl.lt b (fin c)) := by
+  cases a <;> cases b <;> simp_all [Fl.min, Fl.lt, Fl.le, notNan, isNan]
+  rename_i p q
+  by_cases h : p ≤ q
+  · simp [h]; intro h1; linarith
+  · simp [h]; intro h1; linarith
+
+private theorem foldl_max (c : Rat) (v : List Fl) : ∀ x : Fl, x.notNan = true → (∀ y ∈ v, y.notNan = true) →
+    (v.foldl Fl.max x).notNan = true ∧
+    Fl.gt (v.foldl Fl.max x) (fin c) = (Fl.gt x (fin c) || v.any fun y => Fl.gt y (fin c)) := by
+  induction v with
+  | nil => intro x hx _; simp [hx]
+  | cons y v ih =>
+    intro x hx hv
+    have hy := hv y List.mem_cons_self
+    have := ih (Fl.max x y) (max_notNan x y hx hy) (fun z hz => hv z (List.mem_cons_of_mem y hz))
+    simp only [List.foldl_cons, List.any_cons]
+    refine ⟨this.1, ?_⟩
+    rw [this.2, gt_max x y c hx hy, Bool.or_assoc]
+
+private theorem foldl_min (c : Rat) (v : List Fl) : ∀ x : Fl, x.notNan = true → (∀ y ∈ v, y.notNan = true) →
+    (v.foldl Fl.min x).notNan = true ∧
+    Fl.lt (v.foldl Fl.min x) (fin c) = (Fl.lt x (fin c) || v.any fun y => Fl.lt y (fin c)) := by
+  induction v with
+  | nil => intro x hx _; simp [hx]
+  | cons y v ih =>
+    intro x hx hv
+    have hy := hv y List.mem_cons_self
+    have := ih (Fl.min x y) (min_notNan x y hx hy) (fun z hz => hv z (List.mem_cons_of_mem y hz))
+    simp only [List.foldl_cons, List.any_cons]
+    refine ⟨this.1, ?_⟩
+    rw [this.2, lt_min x y c hx hy, Bool.or_assoc]
+
+private theorem valid_notNan (xs : List Fl) : ∀ y ∈ valid xs, y.notNan = true := by
+  intro y hy; unfold valid at hy; exact (List.mem_filter.mp hy).2
+
+theorem nanMax_gt (c : Rat) (xs : List Fl) : Fl.gt (nanMax xs) (fin c) = (valid xs).any fun y => Fl.gt y (fin c) := by
+  unfold nanMax
+  have hv := valid_notNan xs
+  cases h : valid xs with
+  | nil => simp
+  | cons x r =>
+    rw [h] at hv
+    simp only [List.any_cons]
+    exact (foldl_max c r x (hv x List.mem_cons_self) (fun z hz => hv z (List.mem_cons_of_mem x hz))).2
+
+theorem nanMin_lt (c : Rat) (xs : List Fl) : Fl.lt (nanMin xs) (fin c) = (valid xs).any fun y => Fl.lt y (fin c) := by
+  unfold nanMin
+  have hv := valid_notNan xs
+  cases h : valid xs with
+  | nil => simp
+  | cons x r =>
+    rw [h] at hv
+    simp only [List.any_cons]
+    exact (foldl_min c r x (hv x List.mem_cons_self) (fun z hz => hv z (List.mem_cons_of_mem x hz))).2
+
+/-- **the range guard at array level**: the forecasts are rejected exactly when some non-missing value is
+    above 1 or below 0 -/
+theorem range_guard_list (fs : List Fl) :
+    fcst_range_rejected (nanMax fs) (nanMin fs) = true ↔ ∃ f ∈ fs, f ≠ nan ∧ (Fl.gt f (fin 1) = true ∨ Fl.lt f (fin 0) = true) := by
+  unfold fcst_range_rejected
+  rw [nanMax_gt, nanMin_lt]
+  simp only [Bool.or_eq_true, List.any_eq_true, valid, List.mem_filter]
+  constructor
+  · rintro (⟨f, ⟨hf, hv⟩, h⟩ | ⟨f, ⟨hf, hv⟩, h⟩)
+    · exact ⟨f, hf, by rintro rfl; simp [notNan, isNan] at hv, Or.inl h⟩
+    · exact ⟨f, hf, by rintro rfl; simp [notNan, isNan] at hv, Or.inr h⟩
+  · rintro ⟨f, hf, hn, h | h⟩
+    · exact Or.inl ⟨f, ⟨hf, by cases f <;> simp_all [notNan, isNan]⟩, h⟩
+    · exact Or.inr ⟨f, ⟨hf, by cases f <;> simp_all [notNan, isNan]⟩, h⟩
+
+example : fcst_range_rejected (nanMax [fin (1/2), nan, fin (5/4)]) (nanMin [fin (1/2), nan, fin (5/4)]) = true := by
+  decide +kernel
+
+private theorem le_eq_not_lt (a b : Fl) (ha : a.notNan = true) (hb : b.notNan = true) : Fl.le a b = !Fl.lt b a := by
+  cases a <;> cases b <;> simp_all [Fl.le, Fl.lt, notNan, isNan]
+  rw [← decide_not]; exact decide_eq_decide.mpr not_lt.symm
+
+/-- the two guards together accept exactly `Spec.Brier.accepted`: every non-missing forecast in [0,1] and
+    every non-missing observation 0 or 1 -/
+theorem accepted_iff (fs os : List Fl) :
+    Spec.Brier.accepted fs os = true ↔
+      (fcst_range_rejected (nanMax fs) (nanMin fs) = false ∧ binaryRejected os = false) := by
+  unfold Spec.Brier.accepted
+  rw [Bool.and_eq_true, ← Bool.not_eq_true, ← Bool.not_eq_true, range_guard_list, binary_guard]
+  simp only [List.all_eq_true, Bool.or_eq_true, Bool.and_eq_true, not_exists, not_and]
+  constructor
+  · rintro ⟨hf, ho⟩
+    refine ⟨fun f hfm hn h => ?_, fun o hom hn h0 h1 => ?_⟩
+    · have hv : f.notNan = true := by cases f <;> simp_all [notNan, isNan]
+      rcases hf f hfm with h' | ⟨h1, h2⟩
+      · cases f <;> simp_all [isNan]
+      · rw [le_eq_not_lt _ _ rfl hv] at h1
+        rw [le_eq_not_lt _ _ hv rfl] at h2
+        rcases h with h | h
+        · simp [Fl.gt] at h; simp [h] at h2
+        · simp [h] at h1
+    · rcases ho o hom with (h' | h') | h'
+      · cases o <;> simp_all [isNan]
+      · cases o <;> simp_all [beq]
+      · cases o <;> simp_all [beq]
+  · rintro ⟨hf, ho⟩
+    refine ⟨fun f hfm => ?_, fun o hom => ?_⟩
+    · by_cases hn : f = nan
+      · subst hn; exact Or.inl rfl
+      · have hv : f.notNan = true := by cases f <;> simp_all [notNan, isNan]
+        refine Or.inr ⟨?_, ?_⟩
+        · rw [le_eq_not_lt _ _ rfl hv]
+          cases h : Fl.lt f (fin 0)
+          · rfl
+          · exact absurd (Or.inr h) (hf f hfm hn)
+        · rw [le_eq_not_lt _ _ hv rfl]
+          cases h : Fl.lt (fin 1) f
+          · rfl
+          · exact absurd (Or.inl (by simpa [Fl.gt] using h)) (hf f hfm hn)
+    · by_cases hn : o = nan
+      · subst hn; exact Or.inl (Or.inl rfl)
+      · by_cases h0 : o = fin 0
+        · subst h0; exact Or.inl (Or.inr (by simp [beq]))
+        · by_cases h1 : o = fin 1
+          · subst h1; exact Or.inr (by simp [beq])
+          · exact absurd h1 (ho o hom hn h0)
+
+/-- **brier_score with checking on**: the mean squared difference on exactly the accepted inputs, ValueError
+    on all others -/
+theorem brier_checked_accepted (fs os : List Fl) (w : Option (List Fl)) :
+    brierScore fs os w true =
+      if Spec.Brier.accepted fs os then .ok (Spec.Brier.brier fs os w) else .error "ValueError" := by
+  rw [brier_checked]
+  by_cases h : Spec.Brier.accepted fs os = true
+  · have := (accepted_iff fs os).mp h
+    simp [h, this.1, this.2]
+  · have h' : ¬(fcst_range_rejected (nanMax fs) (nanMin fs) = false ∧ binaryRejected os = false) :=
+      fun hh => h ((accepted_iff fs os).mpr hh)
+    simp only [Bool.not_eq_true] at h
+    simp only [h, Bool.false_eq_true, if_false]
+    cases h1 : fcst_range_rejected (nanMax fs) (nanMin fs) <;> cases h2 : binaryRejected os <;> simp_all
+
+example : Spec.Brier.accepted [fin (1/4), nan, fin 1] [fin 0, fin 1, nan] = true := by decide +kernel
+example : Spec.Brier.accepted [fin (5/4)] [fin 0] = false := by decide +kernel
+
 end SV.Props.C13
